@@ -265,6 +265,11 @@ func (m *coreMon) check(op string, res string, cur *coreSnap) {
 			if kv["seqerr"] != "-" || kv["rooterr"] != "-" || kv["bdlen"] != kv["num"] || kv["num"] == "0" {
 				m.violate("C01/accept/malformed-descriptors", op)
 			}
+			// the version the batch ends on (`drs=`: the last descriptor's) must not be marked obsolete; the
+			// set is read from the rollapp keeper's store, not from the message-level check
+			if v := uint32(atou(kv["drs"])); m.h.f.App.RollappKeeper.IsDRSVersionObsolete(m.h.f.Ctx, v) {
+				m.violate("C01/accept/obsolete-drs-version", fmt.Sprintf("r%d accepted an update ending on DRS version %d, which is marked obsolete", ri, v))
+			}
 			if uint64(len(r.States)) != uint64(len(pr.States))+1 && kv["last"] != "1" {
 				m.violate("C01/accept/not-appended", fmt.Sprintf("r%d %d -> %d states", ri, len(pr.States), len(r.States)))
 			}
@@ -745,6 +750,7 @@ func (c *coreGen) genUpdate(s *coreSnap, ri int) string {
 	bdlen := num
 	last := 0
 	seqerr, rooterr, ts, drs := "-", "-", "all", 1+g.Intn(2)
+	drs0 := ""
 	if n := len(ra.States); (n == 0 || !ra.States[n-1].LastHasTs) && g.Chance(25) {
 		ts = "none"
 	}
@@ -788,8 +794,19 @@ func (c *coreGen) genUpdate(s *coreSnap, ri int) string {
 			ts = fmt.Sprint(g.Intn(int(num)))
 			c.r.Hit("update-missing-timestamp")
 		case 9:
-			drs = 7 + g.Intn(2)
-			c.r.Hit("update-maybe-obsolete-drs")
+			// a batch may span a version change: only the LAST descriptor's version decides
+			switch v := g.Intn(3); {
+			case v == 1 && num > 1:
+				drs = 7 + g.Intn(2)
+				drs0 = fmt.Sprintf(" drs0=%d", 1+g.Intn(2))
+				c.r.Hit("update-mixed-drs-last-maybe-obsolete")
+			case v == 2 && num > 1:
+				drs0 = fmt.Sprintf(" drs0=%d", 7+g.Intn(2))
+				c.r.Hit("update-mixed-drs-earlier-maybe-obsolete")
+			default:
+				drs = 7 + g.Intn(2)
+				c.r.Hit("update-maybe-obsolete-drs")
+			}
 		case 10:
 			last = 1 - last
 			c.r.Hit("update-last-flag-flipped")
@@ -801,7 +818,7 @@ func (c *coreGen) genUpdate(s *coreSnap, ri int) string {
 	if by < 0 {
 		by = c.pickActor()
 	}
-	return fmt.Sprintf("update r%d by=a%d start=%d num=%d bdlen=%d rev=%d last=%d seqerr=%s ts=%s drs=%d rooterr=%s", ri, by, start, num, bdlen, rev, last, seqerr, ts, drs, rooterr)
+	return fmt.Sprintf("update r%d by=a%d start=%d num=%d bdlen=%d rev=%d last=%d seqerr=%s ts=%s drs=%d rooterr=%s%s", ri, by, start, num, bdlen, rev, last, seqerr, ts, drs, rooterr, drs0)
 }
 
 func (c *coreGen) genFraud(s *coreSnap, ri int, members []int) string {
